@@ -234,7 +234,7 @@ func (w *World) note(kind string, kv ...interface{}) {
 		r["c"] = w.symOf(cid)
 		delete(r, "cid")
 	}
-	for _, key := range [...]string{"evp", "sp", "ep", "rp"} {
+	for _, key := range [...]string{"evp", "sp", "ep", "rp", "csp", "rcb"} {
 		if p, ok := r[key]; ok {
 			// identity of a resource event / subscription object: small
 			// integers in order of first appearance. The map keeps the
@@ -249,6 +249,9 @@ func (w *World) note(kind string, kv ...interface{}) {
 	}
 	if rid, ok := r["rid"].(string); ok {
 		r["rid"] = w.symText(rid)
+	}
+	if rid, ok := r["crid"].(string); ok {
+		r["crid"] = w.symText(rid)
 	}
 	if n, ok := r["name"].(string); ok && kind == "resetres" {
 		// C12 "exactly the matching resources": does any reset sent so far list a pattern matching the name?
